@@ -459,6 +459,9 @@ def run(ctx):
     import check
     check.pmap(ctx, 'props.c05', 'one', list(range(1500 if ctx.quick else 12000)), case_timeout=120)
     check.pmap(ctx, 'props.c05', 'exp_family', list(range(200 if ctx.quick else 2000)), case_timeout=120)
+    # correspondence of the translation user dictionaries -> events -> epochs (PGModel/ConfigDemo.lean `toEvents`, driver command
+    # `cfgepochs`) with the real Demography(pop_sizes=..., migration_rates=...) behind a Coalescent, epoch by epoch in axis order
+    check.pmap(ctx, 'props.corr_models', 'one_cfg_epochs', list(range(12 if ctx.quick else 120)), case_timeout=300)
 
 
 def replay(ctx, payload):
